@@ -100,9 +100,9 @@ def run_e1_unit(prop, unit, tier, out, known, workdir, tus):
         out.cov['traces_validated_against_impl'] += ok
         if problems:
             urec['translator_validation']['problems'] = problems[:3]
+            # the run cannot end with "held": exit 2 unless the solver finds a counterexample that reproduces natively (a disagreement is often the
+            # first symptom of a real defect whose concrete run executes undefined behaviour or depends on timing); the queries are still made
             out.undecided.append('%s: translated C and native g++ build disagree on %d concrete vector(s): %s' % (uname, len(problems), json.dumps(problems[0])[:600]))
-            out.cov['units'].append(urec)
-            return
     # 2. solver queries
     vecs = unit['vectors']
     timeout = unit.get('timeout', 600)
